@@ -115,3 +115,30 @@ def cfg_job(prop, seed, n, hand_share=0.2, byte_complete=False):
                     "gram": {"kind": "lark", "text": text}, "cfgs": [{"vocab": voc, "vid": 0, "slices": []}], "w": w,
                     "eos_pct": rng.choice([10, 25]), "log_vocab": 1, "init_extra": {"cfg": g}})
     return {"episodes": eps}
+
+
+W_TOK = {"mask": 100, "fft_side": 100, "acc": 80, "status": 10, "rollback": 8, "commit_try": 0, "commit_batch": 0,
+         "bad_token": 60, "clone_mask": 10}
+
+
+def tok_job(prop, seed, n):
+    from . import tokgen
+    rng = random.Random(f"{prop}-tok-{seed}")
+    eps = []
+    tries = 0
+    while len(eps) < n and tries < n * 40:
+        tries += 1
+        voc, fs = tokgen.make_vocab(rng, list(b"abxy<>|[]3"), canonical=1 if rng.random() < 0.5 else 0)
+        g = tokgen.rand_grammar(rng, voc, fs)
+        if not tokgen.reduced(g):
+            continue
+        text = tokgen.lark_text(g)
+        w = dict(W_TOK)
+        # C19 is not about rollback; rolling back over token-identity tokens has recorded defects of its own
+        # (known finding C12/rollback-over-forced-id-token, and the EOS-as-ordinary-token corner)
+        w["rollback"] = 0
+        eps.append({"gid": f"tok{tries}", "mode": prop, "seed": rng.randrange(1 << 30), "steps": rng.randint(5, 12),
+                    "gram": {"kind": "lark", "text": text}, "cfgs": [{"vocab": voc, "vid": 0, "slices": []}],
+                    "w": w, "eos_pct": 15, "log_vocab": 1, "init_extra": {"cfg": tokgen.strip_text(g)},
+                    "tok_probes": tokgen.tok_probes(voc, fs) if len(eps) % 5 == 0 else []})
+    return {"episodes": eps}
